@@ -1,6 +1,6 @@
 """C07 - BER writer and reader agree; encoding is canonical."""
 from facts import walk, callee_of, call_args, loc
-import sem, hirq, anchors, absx, thresholds
+import sem, hirq, anchors, absx, thresholds, rope
 
 EXPLANATION = ("B1 identifier octet - the writer composes "
                "class<<6 | structure<<5 | id (ids <= 30, else 0x1F) and the reader takes 2, 1, 5 bits in that order, 6 = 8-2 and 5 = 8-2-1; "
@@ -9,7 +9,11 @@ EXPLANATION = ("B1 identifier octet - the writer composes "
                "long-form marker is count | 0x80 against len - 128, only definite forms are emitted; B3 BOOLEAN emits {0xFF} / {0x00}, "
                "NULL emits empty content, every into_structure passes id / class through and keeps the children in order; B4 the TLV "
                "parser returns the slice after the announced length as remainder in both the primitive and the constructed arm, and the "
-               "encoder writes type, then the length of exactly the content it writes next; B7 the TLV parser's children loop ends only when the content is used up, keeps every child and continues with its remainder, and every error path is the failure of one of its primitives or the nesting bound; B2m/B5 the two arithmetic functions - "
+               "encoder leaves in its output buffer, on every path, what the buffer held before, the identifier octets of (class, structure of the payload, id), "
+               "length octets and the content - the payload octets, resp. the encodings of the children in order -, read off the final buffer (a rope of "
+               "segments with positions as formal sums of segment lengths, rules/rope.py), so it does not matter whether the length is written before the content or a "
+               "placeholder is patched / replaced / inserted afterwards; the length octets are write_length(L), constants or L's low octet with L formally the content length, "
+               "and are evaluated at every change point of the partition induced by the branch conditions on L and by write_length's own against the minimal definite form; B7 the TLV parser's children loop ends only when the content is used up, keeps every child and continues with its remainder, and every error path is the failure of one of its primitives or the nesting bound; B2m/B5 the two arithmetic functions - "
                "write_length and the INTEGER/ENUMERATED content encoder - are functions of one integer whose every branch condition is a "
                "comparison of the (possibly complemented) value shifted right by a constant with a constant (checked); such conditions "
                "can change only at finitely many change points, so the path taken and the octets emitted are decided exactly by "
@@ -155,6 +159,188 @@ def check_tlv_parser(ctx, f, R):
     ctx.floor(R, 'success paths of the constructed arm', n_ok, 1)
     ctx.floor(R, 'generic iterations of the children loop', n_it, 1)
     ctx.floor(R, 'error paths of the TLV parser', n_err, 4)
+
+LVAR = ('var', 'L')
+
+def length_in_var(t, latom):
+    """The term t with every linear form in the content length (the atom `latom`) rewritten over the variable LVAR; a comparison
+    between such forms is normalised to `LVAR op constant` (integers: x + c > k  <=>  x > k - c).  A form that involves the content
+    length in any other way (another coefficient, mixed with other lengths) becomes ('unk', ..), which is not a threshold atom."""
+    if not isinstance(t, tuple) or not t or not isinstance(t[0], str):
+        return t
+    def lin_var(x):
+        d, c = rope.lin_of(x)
+        if latom not in d:
+            return None
+        if d == {latom: 1}:
+            return c
+        return 'mixed'
+    if t[0] == 'bin' and t[1] in ('Eq', 'Ne', 'Lt', 'Le', 'Gt', 'Ge'):
+        (d1, c1), (d2, c2) = rope.lin_of(t[2]), rope.lin_of(t[3])
+        d = dict(d1)
+        for a, k in d2.items():
+            d[a] = d.get(a, 0) - k
+        d = {a: k for a, k in d.items() if k != 0}
+        if latom in d:
+            if d == {latom: 1}:
+                return ('bin', t[1], LVAR, ('lit', c2 - c1))
+            if d == {latom: -1}:
+                return ('bin', t[1], ('lit', c1 - c2), LVAR)
+            return ('unk', 'comparison that mixes the content length with other quantities')
+    if t[0] in ('lin', 'call') or (t[0] == 'bin' and t[1] in ('Add', 'Sub')):
+        r = lin_var(t)
+        if r == 'mixed':
+            return ('unk', 'content length in a non-unit linear form')
+        if r is not None:
+            return absx.bin_term('Add', LVAR, ('lit', r))
+    return tuple(length_in_var(x, latom) for x in t)
+
+def check_encoder(ctx, f, ref_len_octets, pts_wl):
+    """B4 (encoder): what `encode_inner` leaves in its output buffer, read off the final buffer of every path (rules/rope.py) - not off
+    the order of its calls.  On every path that returns Ok the buffer is
+        what it held before ++ identifier(tag.class, structure of the payload, tag.id) ++ LENGTH ++ CONTENT
+    with CONTENT the payload octets (primitive) resp. for every child in order what the encoder itself appends for it (constructed;
+    induction over the tree), and LENGTH a sequence of octets each of which is a constant, the low octet of L, or what
+    `write_length(L)` emits, L being *formally* the length of CONTENT - whether LENGTH was written before CONTENT or a placeholder
+    was patched / replaced / inserted afterwards (that `write_length(n)` emits the minimal definite form of n is rule B2m's
+    obligation and is assumed here, so a defect of the length writer is reported once, by B2m).  Which path is taken may depend on L through threshold comparisons only (checked);
+    so the paths' conditions and LENGTH are evaluated at every change point of the partition induced by those comparisons and by
+    write_length's own (0x7F / 0x80 / 0x81, every 2^k +- 1, ...) against the minimal definite length form.  Between two consecutive
+    change points the path and the number of reference octets are fixed, the reference is injective in L and an emitted octet is a
+    constant or L's low octet, so agreement at both ends of such an interval is agreement on all of it."""
+    E = hirq.Body(f, f.body('lber::write::encode_inner'))
+    ctx.analysed['bodies'].add(E.path)
+    WT, WLN = 'lber::write::write_type', 'lber::write::write_length'
+    outb = [(b, ('param', d['name'])) for b, d in E.defs.items() if d['kind'] == 'param' and not d['proj'] and rope.is_bytevec((d.get('pat') or {}).get('ty'))]
+    tagp = [('param', d['name']) for b, d in E.defs.items() if d['kind'] == 'param' and not d['proj'] and hirq.strip_refs((d.get('pat') or {}).get('ty') or '') == 'lber::structure::StructureTag']
+    if len(outb) != 1 or len(tagp) != 1:
+        ctx.fail('anchor-missing', 'encoder parameters', loc(E.root), 'the encoder must take one byte buffer and one StructureTag')
+        return
+    (BUF, BUFP), TAG = outb[0], tagp[0]
+    PAY = ('field', TAG, 'payload')
+    # sinks: the identifier writer (decided by B1), the length writer (B2m) and the encoder itself (induction hypothesis: on Ok it has
+    # appended the encoding of the tag it was given)
+    outs = rope.RopeInterp(f, E, sinks=(WT, WLN, E.path), unroll=1).run()
+    per = {True: [], False: []}          # structure -> [(L-conditions, length items)] of the well-formed Ok paths
+    n_ok = 0
+    badform = []
+    for o in outs:
+        if o.kind == 'loop':
+            ctx.fail('B4.encoder-order', 'unsummarised loop', loc(E.root), 'a loop of the encoder does more than append to the output for each element: what the buffer holds afterwards is not decided')
+            continue
+        if o.kind not in ('val', 'ret'):
+            continue
+        if sem.is_err_result(o.val):
+            ctx.add('B4.encoder-fails-only-with-a-child', 'error path|%s' % absx.fmt(o.val)[:40], loc(E.root), sem.failed(o, lambda t: t[0] == 'call' and t[1] == E.path),
+                    'the encoder gives up on a path on which no child failed to encode: a tag tree is refused')
+            continue
+        if not sem.is_ok_result(o.val):
+            ctx.fail('B4.encoder-order', 'result', loc(E.root), 'the encoder returns something that is neither Ok nor a propagated error: %s' % absx.fmt(o.val)[:60])
+            continue
+        n_ok += 1
+        prim = sem.variant_truth(o.st.pc, lambda t: t == PAY, 'PL::P', ['PL::P', 'PL::C'])
+        inst = {True: 'primitive', False: 'constructed', None: 'structure not tested'}[prim]
+        final = o.st.env.get(BUF, ('unk', 'no buffer'))
+        why = None
+        items, latom = [], None
+        if final[0] != 'rope':
+            why = 'what the output buffer holds is not decided (%s)' % absx.fmt(final)[:80]
+        elif prim is None:
+            why = 'a path that does not depend on whether the payload is primitive or constructed'
+        else:
+            segs = final[1]
+            want_id = ('emit', WT, (('field', TAG, 'class'), ('ctor', 'TagStructure::Primitive' if prim else 'TagStructure::Constructed', ()), ('field', TAG, 'id')))
+            content = segs[-1] if len(segs) >= 3 else None
+            src = ('variant', PAY, 'PL::P' if prim else 'PL::C', 0)
+            no_content = len(segs) >= 3 and segs[-1][0] not in ('bytes', 'many') and any(says_empty(sem.strip_site(a), t, (), lambda x: x == src) for a, t in o.st.pc)
+            if no_content:
+                # a path on which the payload / the list of children is known to be empty may leave the content out: L = 0 there
+                for sg in segs[2:]:
+                    if sg[0] == 'emit' and sg[1] == WLN and len(sg[2]) == 1 and rope.lin_of(sg[2][0]) == ({}, 0):
+                        items.append(('wl',))
+                    elif sg[0] == 'byte' and sg[1][0] == 'lit' and isinstance(sg[1][1], int) and not isinstance(sg[1][1], bool):
+                        items.append(('const', sg[1][1] & 0xff))
+                    else:
+                        why = 'on a path with empty content there is %s after the identifier' % absx.fmt(sg)[:80]
+                if segs[0] != ('pre', BUFP) or segs[1] != want_id:
+                    why = 'the buffer does not begin with what it held before, followed by the identifier octets of (tag.class, %s, tag.id)' % ('Primitive' if prim else 'Constructed')
+            elif len(segs) < 3 or segs[0] != ('pre', BUFP):
+                why = 'the buffer does not begin with what it held before, followed by identifier, length and content'
+            elif segs[1] != want_id:
+                why = 'after the earlier content comes %s, not the identifier octets of (tag.class, %s, tag.id)' % (absx.fmt(segs[1])[:80], 'Primitive' if prim else 'Constructed')
+            elif prim and content != ('bytes', ('variant', PAY, 'PL::P', 0)):
+                why = 'the buffer does not end with the payload octets: %s' % absx.fmt(content)[:80]
+            elif not prim and not (content[0] == 'many' and content[1] == ('variant', PAY, 'PL::C', 0) and content[3] == (('emit', E.path, (content[2],)),)):
+                why = 'the buffer does not end with the encodings of the children, one after the other in order: %s' % absx.fmt(content)[:100]
+            else:
+                latom = ('len', content[1]) if prim else ('seglen', content)
+                for sg in segs[2:-1]:
+                    if sg[0] == 'emit' and sg[1] == WLN and len(sg[2]) == 1:
+                        if rope.lin_of(sg[2][0]) == ({latom: 1}, 0):
+                            items.append(('wl',))
+                        else:
+                            why = 'write_length is given %s, which is not (formally) the length of the content that follows' % absx.fmt(sg[2][0])[:80]
+                    elif sg[0] == 'byte' and sg[1][0] == 'lit' and isinstance(sg[1][1], int) and not isinstance(sg[1][1], bool):
+                        items.append(('const', sg[1][1] & 0xff))
+                    elif sg[0] == 'byte' and sg[1][0] == 'cast' and hirq.strip_refs(str(sg[1][2] or '')) == 'u8' and rope.lin_of(sg[1][1]) == ({latom: 1}, 0):
+                        items.append(('low8',))
+                    else:
+                        why = 'between identifier and content there is %s: neither write_length(content length) nor an octet that is a constant or the content length' % absx.fmt(sg)[:80]
+                if not segs[2:-1]:
+                    why = 'no length octets between identifier and content'
+        ctx.add('B4.encoder-order', inst, loc(E.root), why is None,
+                'the encoder must leave identifier, then the length of exactly the content, then the content in the buffer (in whatever order it writes them): %s' % why)
+        if why is not None:
+            continue
+        conds = []
+        if latom is None:
+            conds.append((('bin', 'Eq', LVAR, ('lit', 0)), True))
+        for a, t in (o.st.pc if latom is not None else ()):
+            a2 = length_in_var(sem.strip_site(a), latom)
+            if sem.has(a2, lambda x: x == LVAR) or (a2 != sem.strip_site(a) and sem.has(a2, lambda x: x[0] == 'unk')):
+                conds.append((a2, t))
+                if not thresholds.atom_ok(a2, LVAR):
+                    badform.append(absx.fmt(a2))
+        per[prim].append((conds, items))
+    ctx.floor('B4', 'success paths of the encoder', n_ok, 2)
+    ctx.add('B4.encoder-conditions-are-thresholds', 'encode_inner', loc(E.root), not badform,
+            'the form of the length octets depends on the content length through something other than a comparison with a constant: %s' % badform[:3])
+    if badform:
+        return
+    atoms = [a for k in per for conds, items in per[k] for a, t in conds]
+    pts = sorted(set(pts_wl) | set(thresholds.change_points(atoms, LVAR, 0, 2 ** 64 - 1)))
+    for prim in (True, False):
+        if not per[prim]:
+            continue
+        wrong = []
+        for v in pts:
+            live = 0
+            for conds, items in per[prim]:
+                holds = True
+                for a, t in conds:
+                    r = thresholds.subst(a, LVAR, v)
+                    if r not in (('lit', True), ('lit', False)):
+                        holds = None; break
+                    if r[1] != t:
+                        holds = False; break
+                if holds is False:
+                    continue
+                live += 1
+                got = []
+                for it in items:
+                    if it[0] == 'wl':
+                        got += ref_len_octets(v)        # what write_length emits for v is B2m's obligation, not decided again here
+                    elif it[0] == 'const':
+                        got.append(it[1])
+                    else:
+                        got.append(v & 0xff)
+                if holds is None or got != ref_len_octets(v):
+                    wrong.append((v, [hex(x) if x is not None else '?' for x in got], [hex(x) for x in ref_len_octets(v)]))
+            if not live:
+                wrong.append((v, 'no path', [hex(x) for x in ref_len_octets(v)]))
+        ctx.add('B4.encoder-length-octets', 'primitive' if prim else 'constructed', loc(E.root), not wrong,
+                'decided at all %d change points of the conditions on the content length L (0..2^64-1): between identifier and content the %s branch leaves length octets that are not the minimal definite form of L at (L, emitted, expected): %s'
+                % (len(pts), 'primitive' if prim else 'constructed', wrong[:4]))
 
 def run(ctx):
     f = ctx.facts
@@ -346,17 +532,22 @@ def run(ctx):
         b = n.to_bytes((n.bit_length() + 7) // 8, 'big')
         return [0x80 | len(b)] + list(b)
     pow2 = [x for k in range(0, 64) for x in ((1 << k) - 1, 1 << k, (1 << k) + 1)]
-    pts = thresholds.change_points(atoms, LEN, 0, 2 ** 64 - 1, extra=[128, 127, 255, 256, 65535, 65536, 2 ** 24 - 1, 2 ** 24, 2 ** 32 - 1, 2 ** 32, 0xFF00, 0xFF0000] + pow2)
+    pts = pts_wl = thresholds.change_points(atoms, LEN, 0, 2 ** 64 - 1, extra=[128, 127, 255, 256, 65535, 65536, 2 ** 24 - 1, 2 ** 24, 2 ** 32 - 1, 2 ** 32, 0xFF00, 0xFF0000] + pow2)
     # exact evaluation on the literal length at every change point (see B5)
     wrong = []
     lb = [b_ for b_, d in WL.defs.items() if d['kind'] == 'param' and d['name'] == 'length']
-    for v in pts:
+    wl_cache = {}
+    def wl_octets(v):
+        """the octets write_length emits for the literal length v (list), or a string saying why they could not be read"""
+        if v in wl_cache:
+            return wl_cache[v]
         I2 = absx.Interp(f, WL, unroll=16, combinators=True)
         env = I2.param_env()
         env[lb[0]] = ('lit', v)
         res = [o for o in I2.run(env=env) if o.kind in ('val', 'ret', 'div')]
         if len(res) != 1 or res[0].kind == 'div':
-            wrong.append((v, 'paths=%d' % len(res))); continue
+            wl_cache[v] = 'paths=%d' % len(res)
+            return wl_cache[v]
         got, okshape = [], True
         for e in res[0].st.ev:
             if e[0] == 'call' and e[1].rsplit('::', 1)[-1] in ('write', 'write_all', 'push', 'extend_from_slice'):
@@ -369,8 +560,12 @@ def run(ctx):
                     got.append(a_[1] & 0xff)
                 else:
                     okshape = False
-        if not okshape or got != ref_len_octets(v):
-            wrong.append((v, [hex(x) for x in got], [hex(x) for x in ref_len_octets(v)]))
+        wl_cache[v] = got if okshape else 'octets not literal: %s' % [hex(x) for x in got]
+        return wl_cache[v]
+    for v in pts:
+        got = wl_octets(v)
+        if got != ref_len_octets(v):
+            wrong.append((v, [hex(x) for x in got] if isinstance(got, list) else got, [hex(x) for x in ref_len_octets(v)]))
     ctx.add('B2m.length-octets-minimal', 'write_length', loc(WL.root), not wrong,
             'decided at all %d change points of the branch conditions (lengths 0..2^64-1): the emitted length octets differ from the minimal definite form at %s' % (len(pts), wrong[:4]))
 
@@ -506,17 +701,4 @@ def run(ctx):
             ctx.add('B4.header-fields', 'primitive=%s' % prim, loc(B.root), okh, 'class/id of the result are not the parsed header fields')
         ctx.add('B4.both-arms', 'primitive+constructed', loc(B.root), seen >= {True, False}, 'no success path for both structures')
     check_tlv_parser(ctx, f, 'B7')
-    E = hirq.Body(f, f.body('lber::write::encode_inner'))
-    ctx.analysed['bodies'].add(E.path)
-    for o in absx.Interp(f, E, unroll=1).run():
-        if o.kind != 'val':
-            continue
-        ev = [e for e in o.st.ev if e[0] == 'call' and e[1].rsplit('::', 1)[-1] in ('write_type', 'write_length', 'extend')]
-        names = [e[1].rsplit('::', 1)[-1] for e in ev]
-        ok = names == ['write_type', 'write_length', 'extend']
-        if ok:
-            ln, content = ev[1][2][1], ev[2][2][1]
-            ok = (ln[0] == 'call' and ln[1].endswith('::len') and ln[2][0] == content) or (ln == ('lit', 0) and content == ('vec', ()))
-            ok = ok and ev[0][2][1:] == (('field', ('param', 'tag'), 'class'), ev[0][2][2], ('field', ('param', 'tag'), 'id'))
-        ctx.add('B4.encoder-order', 'primitive' if any(a[0] == 'is' and t for a, t in o.st.pc) else 'constructed', loc(E.root), ok,
-                'the encoder must write the identifier, then the length of exactly the content, then the content: %s' % names)
+    check_encoder(ctx, f, ref_len_octets, pts_wl)
